@@ -22,11 +22,15 @@ type replyResult struct {
 // "send on closed channel" panic class structurally unreachable.
 type replyRegistry struct {
 	m *xsync.MapOf[[4]byte, chan replyResult]
+	// data holds the keys whose waiter is a DATA transaction (markData). A non-data message that
+	// carries such a key is nobody's reply: route reports a miss for it instead of parking it in
+	// the waiter's one-slot buffer, where it would make the genuine reply look like a duplicate.
+	data *xsync.MapOf[[4]byte, struct{}]
 }
 
 // newReplyRegistry returns an initialised replyRegistry ready for use.
 func newReplyRegistry() replyRegistry {
-	return replyRegistry{m: xsync.NewMapOf[[4]byte, chan replyResult]()}
+	return replyRegistry{m: xsync.NewMapOf[[4]byte, chan replyResult](), data: xsync.NewMapOf[[4]byte, struct{}]()}
 }
 
 // register allocates a buffered reply channel for key, stores it, and returns
@@ -43,6 +47,17 @@ func (r replyRegistry) register(key [4]byte) chan replyResult {
 // Called by the sender as a deferred cleanup — the channel is NOT closed here.
 func (r replyRegistry) deregister(key [4]byte) {
 	r.m.Delete(key)
+	if r.data != nil {
+		r.data.Delete(key)
+	}
+}
+
+// markData records that the waiter registered for key is a DATA transaction: only a data message
+// (its reply) or a Reject of it may complete it. Cleared by deregister.
+func (r replyRegistry) markData(key [4]byte) {
+	if r.data != nil {
+		r.data.Store(key, struct{}{})
+	}
 }
 
 // route delivers res to the waiting sender for key using a non-blocking send.
@@ -53,6 +68,16 @@ func (r replyRegistry) route(key [4]byte, res replyResult) bool {
 	ch, ok := r.m.Load(key)
 	if !ok {
 		return false
+	}
+
+	// A control response (Select/Deselect/Linktest.rsp) that reuses the system bytes of an open DATA
+	// transaction is a response with no open transaction of its own: a miss. Parking it in the
+	// one-slot buffer would get the genuine reply, arriving before the sender drains the stray,
+	// discarded as a "duplicate" — the sender would then ignore the stray and time out on T3.
+	if res.msg != nil && res.msg.Type() != DataMsgType && r.data != nil {
+		if _, isData := r.data.Load(key); isData {
+			return false
+		}
 	}
 
 	select {
